@@ -115,7 +115,9 @@ func (t TypeURLMap) SetFromSchema(schema map[string]*ast.Definition, url string)
 		}
 
 		for _, f := range v.Fields {
-			if common.IsBuiltinName(f.Name) || isNodeField(f) {
+			// the relay lookup `node` of Query is answered by the gateway itself; a field of the
+			// same shape on another type is an ordinary field of the service which declares it
+			if common.IsBuiltinName(f.Name) || (common.IsQueryObjectName(k) && isNodeField(f)) {
 				continue
 			}
 
